@@ -10,22 +10,27 @@ MODEL = "C18"
 MODEL_QUALID = "Model.Health.run_script"
 FORMAT = ("script [n_res; failure_threshold; success_threshold; interval_ms; timeout_ms; initial_delay_ms; "
           "strategy + 16*route (strategy 0 FirstAvailable/1 RoundRobin/2 PreferHealthy/3 Custom last-healthy/4 Custom "
-          "Some(1)/5 Custom None; route 0 wrapper setters/1 HealthCheckConfig::builder()+with_config/2 with_config(decoy) "
+          "Some(1)/5 Custom None/6 Random (crate feature random); route 0 wrapper setters/1 HealthCheckConfig::builder()+with_config/2 with_config(decoy) "
           "then setters/3 setters(decoy) then with_config); "
           "R; n_ev; (answer 0 Healthy/1 Degraded/2 Unhealthy/3 Unknown, delay_ms)*R per resource (k-th check of the "
           "resource; delay > timeout = timed out); (op, arg)*n_ev: op 0 advance arg ms then observe, op 1 get_healthy "
           "x arg, op 2 get_usable x arg] -> trace [per op 0: per resource status (+100/+200: get_status / "
-          "get_all_statuses disagree with get_health_details), consecutive_failures, "
+          "get_all_statuses disagree with get_health_details; +400/+800: the on_health_change / on_check_failed "
+          "callbacks of the tracing feature do not replay to that status / to the timed-out checks), consecutive_failures, "
           "consecutive_successes, checks started, checks finished; per op 1/2: selected resource id or -1 per call]")
 RULE = ("random: 0-8 resources, thresholds 1-12 (rarely 0; large ones 255/256/257/300/65536/2^32-1 with streaks that "
         "must not flip and 300-check streaks that must), all four configuration routes, intervals 1-12 ms incl. shorter "
         "than slow checks (missed ticks), timeouts 0-8 ms, huge interval/timeout/initial delay, delays hitting the "
         "timeout exactly and exceeding it, long alternating / streaky / unknown-laden answer sequences, streaks of "
         "exactly threshold-1 / threshold / threshold+1, all strategies incl. custom selectors, selections interleaved "
-        "with status changes, k*n round-robin bursts, get_healthy/get_usable alternating (one cursor per accessor); "
+        "with status changes, k*n round-robin bursts, get_healthy/get_usable alternating (one cursor per accessor), "
+        "round-robin runs of 255-260, 1000 and 65535-65540 calls through one accessor (cursor beyond a byte / 16 bits), "
+        "the Random strategy, scripts observed after every millisecond (one check result per observation); "
         "thorough adds an exhaustive sweep of short answer sequences; "
         "non-trivial = some published status flipped away from Unknown and back across a threshold")
-TRUSTED = ["the scripted HealthChecker in harness/src/bin/c18.rs (answers after sleeping delay_ms; counts started/finished checks)",
+TRUSTED = ["for strategy 6 (Random) the model's pick is not compared: `compare` demands the same observations and the same "
+           "None / Some pattern, the monitor that every pick is eligible (the RNG is not modelled)",
+           "the scripted HealthChecker in harness/src/bin/c18.rs (answers after sleeping delay_ms; counts started/finished checks)",
            "custom selector closures mirrored by hand in Model/Health.v strategy_of and harness/src/bin/c18.rs"]
 ASSUMPTIONS = ["interval >= 1 ms (tokio::time::interval panics on a zero period inside the spawned task; Props: C18_fuel_suffices)",
                "fewer than 2^64 checks per resource (u64 counters) ; the round-robin cursor wraps at 2^64 as AtomicUsize does",
@@ -91,6 +96,15 @@ def corpus():
         out.append(mk(1, f, 3, 1, 2, 0, 0, tb, [(0, 0)] + [(0, 50)] * 4 + [(0, 10)] * 12 + [(2, 1)], route=f % 4))
     out.append(mk(1, U32, U32, 1, 2, 0, 0, [[(U, 0)] * 20 + [(H, 0)] * 20], [(0, 0)] + [(0, 7), (1, 1), (2, 1)] * 7))
     out.append(mk(1, 3, 256, 1, 2, 0, 2, [[(U, 0)] * 3 + [(H, 0), (D, 0)] * 140], [(0, 0), (0, 5)] + [(0, 50)] * 4 + [(0, 10)] * 12 + [(1, 1)]))
+    # round-robin cursor beyond a byte and beyond 16 bits (review 2, D1: `fetch_add(1) as u8 as usize` passed):
+    # the picks around the 256th / 65536th call of ONE accessor must stay a rotation
+    out.append(mk(3, 1, 1, 5, 2, 0, 1, [[(H, 0)]] * 3, [(0, 0), (0, 1), (1, 300), (2, 7), (1, 3), (2, 290)]))
+    out.append(mk(5, 1, 1, 5, 2, 0, 1, [[(H, 0)], [(D, 0)], [(H, 0)], [(U, 0)], [(H, 0)]],
+                  [(0, 0), (0, 1), (2, 258), (1, 65540), (2, 3)], route=1))
+    out.append(mk(7, 1, 1, 5, 2, 0, 1, [[(H, 0)]] * 7, [(0, 0), (0, 1), (2, 65539), (1, 2), (2, 9)], route=3))
+    # Random: only eligible resources, None iff none qualifies
+    out.append(mk(4, 1, 1, 3, 2, 0, 6, [[(H, 0), (U, 0)], [(D, 0), (H, 0)], [(U, 0), (U, 0)], [(K, 0), (D, 0)]],
+                  [(0, 0), (1, 6), (2, 6), (0, 3), (1, 6), (2, 6)], route=2))
     # huge durations: checks never start / start once / never time out
     out.append(mk(2, 1, 1, 3, 2, BIG, 1, [[(H, 0)], [(U, 0)]], [(0, 0), (0, 40), (1, 2), (2, 2)]))
     out.append(mk(2, 1, 1, BIG, 2, 0, 1, [[(H, 0), (U, 0)], [(D, 1), (H, 0)]], [(0, 0), (0, 40), (1, 2), (2, 4)]))
@@ -163,7 +177,7 @@ def rand_script(rng, small=False):
         if k == 0: interval = BIG
         elif k == 1: timeout = BIG
         else: init = BIG
-    strat = rng.choice([0, 1, 1, 1, 2, 2, 3, 4, 5])
+    strat = rng.choice([0, 1, 1, 1, 2, 2, 3, 4, 5, 6, 6])
     route = rng.choice([0, 0, 1, 1, 2, 3])
     long_run = (not small) and max(f, s) in range(5, 13)
     r = rng.randrange(0, 6 if small else (40 if long_run else 16))
@@ -171,12 +185,16 @@ def rand_script(rng, small=False):
     evs = [(0, 0)]
     total = 0
     budget = 60 if small else (300 if long_run else 160)
-    while total < budget and len(evs) < 60:
+    while total < budget and len(evs) < 200:
         c = rng.random()
         if c < 0.55:
             a = rng.choice([1, 1, 1, 2, 3, interval, interval, interval + 1, 2 * interval])
             a = min(a, 30)
-            evs.append((0, a)); total += a
+            if a > 1 and rng.random() < 0.65:
+                evs.extend([(0, 1)] * a)      # observed after every millisecond: results are judged one by one
+            else:
+                evs.append((0, a))
+            total += a
         elif c < 0.75:
             evs.append((rng.choice([1, 2]), rng.choice([1, 1, 2, 3])))
         elif c < 0.9:
@@ -215,6 +233,42 @@ def rr_script(rng):
     return mk(n, f, s, interval, 2, rng.choice([0, 1]), 1, tables, evs, route=rng.randrange(4))
 
 
+def burst_script(rng, big):
+    """long round-robin runs through one accessor with the statuses at rest (selections cost no virtual time):
+    the cursor passes 255/256 (and 65535/65536 when big), with calls of the other accessor in between"""
+    n = rng.choice([3, 5, 6, 7])
+    kinds = [H] * n
+    for _ in range(rng.choice([0, 0, 1, 2])):
+        kinds[rng.randrange(n)] = rng.choice([D, U])
+    if sum(1 for k in kinds if k == H) < 2:
+        kinds[0] = kinds[1] = H
+    acc = rng.choice([1, 2])
+    edge = rng.choice([65535, 65536]) if big else rng.choice([255, 256, 256, 1000])
+    before = edge - rng.randrange(0, 6)
+    evs = [(0, 0), (0, 1), (acc, before), (3 - acc, rng.randrange(1, 2 * n)), (acc, rng.randrange(1, 3 * n)),
+           (0, rng.choice([1, 5])), (acc, rng.randrange(1, 2 * n)), (3 - acc, rng.choice([3, 257]))]
+    return mk(n, 1, 1, 5, 2, 0, 1, [[(k, 0)] * 3 for k in kinds], evs, route=rng.randrange(4))
+
+
+def fine_script(rng):
+    """observed after every millisecond, so that (almost) every check result is judged on its own"""
+    n = rng.choice([1, 1, 2, 3])
+    f, s = rand_threshold(rng), rand_threshold(rng)
+    if max(f, s) > 12:
+        f, s = rng.choice([1, 2, 3]), rng.choice([1, 2, 3])
+    interval = rng.choice([1, 1, 2, 3, 4])
+    timeout = rng.choice([0, 1, 2, 3])
+    r = rng.randrange(4, 60)
+    tables = [rand_answers(rng, r, timeout, f, s) for _ in range(n)]
+    evs = [(0, 0)]
+    for _ in range(rng.randrange(30, 140)):
+        evs.append((0, 1))
+        if rng.random() < 0.08:
+            evs.append((rng.choice([1, 2]), rng.choice([1, 2, n])))
+    return mk(n, f, s, interval, timeout, rng.choice([0, 0, 1, 2]), rng.choice([0, 1, 1, 2, 6]), tables, evs,
+              route=rng.randrange(4))
+
+
 def generate(rng, tier):
     out = []
     n = 1500 if tier == "quick" else 30000
@@ -222,6 +276,16 @@ def generate(rng, tier):
         out.append(rand_script(rng, small=(i % 3 == 0)))
     for i in range(n // 6):
         out.append(rr_script(rng))
+    for i in range(n // 3):
+        out.append(fine_script(rng))
+    for i in range(40 if tier == "quick" else 400):
+        out.append(burst_script(rng, big=False))
+    for i in range(2 if tier == "quick" else 12):
+        out.append(burst_script(rng, big=True))
+    if tier == "thorough":
+        # a threshold beyond 16 bits that IS reached: 65536 failures in a row flip exactly at the 65536th
+        out.append(mk(1, 65536, 2, 1, 2, 0, 0, [[(U, 0)] * 65540 + [(H, 0)] * 4],
+                      [(0, 0), (0, 30000), (0, 30000), (0, 5530)] + [(0, 1)] * 16 + [(2, 1)], route=1))
     if tier == "thorough":
         # exhaustive: one resource, all answer sequences of length <= 5 over {H, D, U, K, slow}, thresholds 1..3
         import itertools
@@ -281,51 +345,50 @@ def eff(tables, i, k, timeout):
     return a
 
 
-def trailing(nk, pred):
+def trailing(nk, pred, cap=None):
     n = 0
     for x in reversed(nk):
-        if not pred(x):
+        if not pred(x) or (cap is not None and n >= cap):
             break
         n += 1
     return n
 
 
-def specified_status(res, f, sth):
-    """the status the property's rule publishes after the effective results res (oldest first):
-    Unknown results are skipped; Degraded at once; Unhealthy iff a failure completes >= f consecutive failures;
-    Healthy iff a Healthy result completes >= sth consecutive non-failing results; otherwise unchanged"""
-    st, nk = K, []
-    for x in res:
+class Rule:
+    """the property's rule applied result by result (oldest first), no counters: Unknown results are skipped;
+    Degraded at once; Unhealthy iff a failure completes >= f consecutive failures; Healthy iff a Healthy result
+    completes >= sth consecutive non-failing results; otherwise unchanged.
+    st = the status the rule publishes (flips are mandatory); poss = the statuses permitted when a threshold flip may
+    also be withheld (necessity only)"""
+    def __init__(self, f, sth):
+        self.f, self.sth, self.st, self.poss, self.nk = f, sth, K, {K}, []
+
+    def push(self, x):
         if x == K:
-            continue
-        nk.append(x)
+            return
+        self.nk.append(x)
         if x == D:
-            st = D
+            self.st, self.poss = D, {D}
         elif x == U:
-            if trailing(nk, lambda y: y == U) >= f:
-                st = U
+            if trailing(self.nk, lambda y: y == U, max(self.f, 0)) >= self.f:
+                self.st, self.poss = U, self.poss | {U}
         else:
-            if trailing(nk, lambda y: y in (H, D)) >= sth:
-                st = H
-    return st
+            if trailing(self.nk, lambda y: y in (H, D), max(self.sth, 0)) >= self.sth:
+                self.st, self.poss = H, self.poss | {H}
+
+
+def specified_status(res, f, sth):
+    r = Rule(f, sth)
+    for x in res:
+        r.push(x)
+    return r.st
 
 
 def permitted_statuses(res, f, sth):
-    """necessity only: the set of statuses the rule permits after res when a threshold flip may be withheld"""
-    poss, nk = {K}, []
+    r = Rule(f, sth)
     for x in res:
-        if x == K:
-            continue
-        nk.append(x)
-        if x == D:
-            poss = {D}
-        elif x == U:
-            if trailing(nk, lambda y: y == U) >= f:
-                poss = poss | {U}
-        else:
-            if trailing(nk, lambda y: y in (H, D)) >= sth:
-                poss = poss | {H}
-    return poss
+        r.push(x)
+    return r.poss
 
 
 NAMES = {H: "Healthy", D: "Degraded", U: "Unhealthy", K: "Unknown"}
@@ -352,6 +415,8 @@ def monitor(s, t):
     prev = [(K, 0, 0, 0, 0)] * n          # status Unknown, nothing started
     cur_status = None                     # published statuses are known from the first observation on
     judged = [True] * n                   # False once checks of the resource overlapped (order of results unknown)
+    rule = [Rule(f, sth) for _ in range(n)]
+    results = [[] for _ in range(n)]      # effective results of the finished checks, oldest first
     window = {1: None, 2: None}           # per accessor: [eligible set, its picks while it saw that set]
     for (op, arg, payload) in evs:
         if op == 0:
@@ -361,7 +426,8 @@ def monitor(s, t):
                 stt, _cfl, _csu, started, fin = o
                 p = prev[i]
                 if stt not in (H, D, U, K):
-                    return "resource %d: get_status / get_all_statuses / get_health_details disagree (code %d)" % (i, stt)
+                    return ("resource %d: get_status / get_all_statuses / get_health_details disagree, or the tracing callbacks "
+                            "do not replay to the published status (code %d)") % (i, stt)
                 if not (p[4] <= fin <= started and started >= p[3] and fin >= 0):
                     return "resource %d: check counts went %s -> %s" % (i, p, o)
                 if started > fin + 1:
@@ -370,10 +436,12 @@ def monitor(s, t):
                 cur_status[i] = stt
                 if not judged[i]:
                     continue
-                res = [eff(tables, i, k, timeout) for k in range(fin)]
-                new = res[p[4]:fin]
-                exp = specified_status(res, f, sth)
-                if stt == exp or (not SUFFICIENT_FLIPS and stt in permitted_statuses(res, f, sth)):
+                new = [eff(tables, i, k, timeout) for k in range(p[4], fin)]
+                for x in new:
+                    results[i].append(x)
+                    rule[i].push(x)
+                res, exp = results[i], rule[i].st
+                if stt == exp or (not SUFFICIENT_FLIPS and stt in rule[i].poss):
                     continue
                 ctx = "(thresholds f=%d s=%d, effective results %s, was %s)" % (f, sth, res[-24:], NAMES[p[0]])
                 if all(x == K for x in new):
@@ -397,7 +465,7 @@ def monitor(s, t):
             elig = [i for i in range(n) if want(cur_status[i])]
             for pick in payload:
                 if pick == -1:
-                    if elig and strat in (0, 1, 2):
+                    if elig and strat in (0, 1, 2, 6):
                         return "(g) %s returned nothing although %s qualify" % (name, elig)
                 elif not elig:
                     return "(g) %s returned %d although nothing qualifies" % (name, pick)
@@ -416,6 +484,24 @@ def monitor(s, t):
             else:
                 window[op] = None
     return None
+
+
+def compare(s, impl, model):
+    """traces must be equal; for the Random strategy (6) the picks are the RNG's: same observations and the same
+    None / Some pattern are demanded, which eligible resource is returned is left to the monitor"""
+    if impl == model:
+        return None
+    if len(s) > 6 and s[6] % 16 == 6 and len(impl) == len(model):
+        di, dm = decode(s, impl), decode(s, model)
+        if di and dm:
+            for (op, _a, pi), (_o, _b, pm) in zip(di[2], dm[2]):
+                if op == 0:
+                    if pi != pm:
+                        return "observations differ"
+                elif [x == -1 for x in pi] != [x == -1 for x in pm]:
+                    return "Random: None / Some pattern differs"
+            return None
+    return "traces differ"
 
 
 def nontrivial(s, t):
@@ -451,7 +537,10 @@ def classify(s, t):
         flips = set()
         prev = [K] * n
         last_sel = None
+        calls = {1: 0, 2: 0}
         for (op, arg, payload) in evs:
+            if op in calls and strat == 1:
+                calls[op] += len(payload)
             if op == 0:
                 last_sel = None
                 for i, o in enumerate(payload):
@@ -474,6 +563,10 @@ def classify(s, t):
                     if eh and eh != eu:
                         flips.add("rr_interleaved_differing_sets")
                 last_sel = op
+        if max(calls.values()) >= 256:
+            flips.add("rr_cursor_ge_256")
+        if max(calls.values()) >= 65536:
+            flips.add("rr_cursor_ge_65536")
         out += sorted(flips)
     return out
 
